@@ -55,3 +55,60 @@ def wired(ctx, g, bb=None, pin=None, removed=None):
 def same_edges(ctx, g1, g0):
     x, y = ctx.fresh_name("ex"), ctx.fresh_name("ey")
     return z3.ForAll([x, y], g1.edge(x, y) == g0.edge(x, y))
+
+
+# ----------------------------------------------------------------------------- circuit semantics (DESIGN 4.3)
+def gateok(ctx, ex, g, mu, n):
+    """the gate equation of node n (DESIGN 4.3) under the assignment mu (restricted to node names)"""
+    T = ctx.tval
+    O = ctx.Obj
+    val = lambda x: z3.Select(mu, O.nm(x))
+    f, a, b = ctx.fresh_name("gf"), ctx.fresh_name("ga"), ctx.fresh_name("gb")
+    t = z3.Select(g.ty, n)
+    fi = lambda x: g.edge(x, n)
+    all_ = z3.ForAll([f], z3.Implies(fi(f), val(f)))
+    any_ = z3.Exists([f], z3.And(fi(f), val(f)))
+    one = lambda body: z3.ForAll([a], z3.Implies(z3.And(fi(a), z3.ForAll([f], z3.Implies(fi(f), f == a))), body(a)))
+    two = lambda body: z3.ForAll([a, b], z3.Implies(z3.And(a != b, fi(a), fi(b), z3.ForAll([f], z3.Implies(fi(f), z3.Or(f == a, f == b)))), body(a, b)))
+    return z3.And(
+        z3.Implies(t == T["and"], val(n) == all_), z3.Implies(t == T["nand"], val(n) == z3.Not(all_)),
+        z3.Implies(t == T["or"], val(n) == any_), z3.Implies(t == T["nor"], val(n) == z3.Not(any_)),
+        z3.Implies(z3.Or(t == T["buf"], t == T["bb_input"]), one(lambda p: val(n) == val(p))),
+        z3.Implies(t == T["not"], one(lambda p: val(n) == z3.Not(val(p)))),
+        z3.Implies(t == T["xor"], z3.And(one(lambda p: val(n) == val(p)), two(lambda p, q: val(n) == z3.Xor(val(p), val(q))))),
+        z3.Implies(t == T["xnor"], z3.And(one(lambda p: val(n) == z3.Not(val(p))), two(lambda p, q: val(n) == z3.Not(z3.Xor(val(p), val(q)))))),
+        z3.Implies(t == T["0"], z3.Not(val(n))), z3.Implies(t == T["1"], val(n)))
+
+
+def witness(ctx, mu):
+    """values of the auxiliary objects that make the encoding satisfiable (given in the sidecar, DESIGN 8 C01)"""
+    O = ctx.Obj
+    p, q = ctx.fresh("wp", O), ctx.fresh("wq", O)
+    n = ctx.fresh_name("wn")
+    return z3.And(z3.ForAll([p, q], z3.Select(mu, O.xorpair(p, q)) == z3.Xor(z3.Select(mu, p), z3.Select(mu, q))),
+                  z3.ForAll([n], z3.Select(mu, O.xorinv(n)) == z3.Not(z3.Select(mu, O.nm(n)))))
+
+
+
+
+def cnf_domain(ctx, g):
+    """domain of the proved cnf contract: every node typed; single-input types have at most one driver (lint-clean);
+    parity gates are driven (lint-clean) and -- variant restriction of the proof -- have at most two drivers"""
+    T = ctx.tval
+    x, y, z, w = ctx.fresh_name("rx"), ctx.fresh_name("ry"), ctx.fresh_name("rz"), ctx.fresh_name("rw")
+    tin_ = lambda t, L: z3.Or([t == T[k] for k in L])
+    ty = lambda n: z3.Select(g.ty, n)
+    return [
+        z3.ForAll([x], z3.Implies(g.node(x), z3.Select(g.hasty, x))),
+        z3.ForAll([x, y, z], z3.Implies(z3.And(g.edge(x, z), g.edge(y, z), tin_(ty(z), ["buf", "not", "bb_input"])), x == y)),
+        z3.ForAll([z], z3.Implies(z3.And(g.node(z), tin_(ty(z), ["xor", "xnor"])), z3.Exists([x], g.edge(x, z)))),
+        z3.ForAll([x, y, w, z], z3.Implies(z3.And(g.edge(x, z), g.edge(y, z), g.edge(w, z), tin_(ty(z), ["xor", "xnor"])), z3.Or(x == y, x == w, y == w))),
+    ]
+
+
+ENCODABLE = ["and", "nand", "or", "nor", "not", "buf", "bb_input", "xor", "xnor", "0", "1", "bb_output", "input"]
+
+
+def consistent(ctx, ex, g, mu):
+    m = ctx.fresh_name("cm")
+    return z3.ForAll([m], z3.Implies(g.node(m), gateok(ctx, ex, g, mu, m)))
